@@ -173,6 +173,8 @@ func checkC02(c *Ctx) {
 		if fo := c.failover(sib); fo.Err == nil {
 			fo := fo
 			c.borrowKinds("C01", func() { c.c01Sibling(fo) }, "R02.3", sib+".Get:key-lock-table", []string{"R01.2", "R01.5"}, "insert-key", "lookup-key", "release-key")
+			// what a waiter reads after the release is the entry it waited on: entries are fresh per election, never recycled
+			c.borrowKinds("C01", func() { c.c01Sibling(fo) }, "R02.2", sib+".Get:key-lock-entry", []string{"R01.2"}, "insert-not-fresh-entry")
 		}
 	}
 }
